@@ -527,7 +527,7 @@ REQ_FAULTS = ['trunc_body', 'no_content_length', 'missing_language',
 
 def gen_server_plan(rng, idx):
     W = docgen.Words(rng)
-    lang = rng.choice(['en-GB', 'de-DE', 'en-US'])
+    lang = rng.choice(['en-GB', 'de-DE', 'en-US', 'ru-RU'])
     argv = ['--as-server', '8082', '--lt-command', 'simlt', '--language', lang]
     files = {}
     if rng.random() < 0.4:
@@ -541,8 +541,9 @@ def gen_server_plan(rng, idx):
     if rng.random() < 0.2:
         files['sdefs.tex'] = {'text': '\\newcommand{\\srvmac}{qservz}\n'}
         argv += ['--define', 'sdefs.tex']
-    if rng.random() < 0.15:
-        argv += ['--single-letters', 'A|a|I||']
+    if rng.random() < 0.25:
+        # a trailing || stands for "and the placeholders of the language"
+        argv += ['--single-letters', rng.choice(['A|a|I||', 'A|a|I', 'z.B.||'])]
     if rng.random() < 0.15:
         argv += ['--equation-punctuation', 'all']
     if rng.random() < 0.2:
@@ -556,7 +557,8 @@ def gen_server_plan(rng, idx):
     streams = []
     nclients = rng.choice([1, 2, 2, 3, 4])
     for c in range(nclients):
-        fields = [['language', rng.choice([lang, lang, 'de-DE', 'fr'])]]
+        fields = [['language', rng.choice([lang, lang, 'de-DE', 'fr', 'ru-RU',
+                                           'en-GB'])]]
         if rng.random() < 0.35:
             fields.append(['disabledRules', rng.choice(['R1', 'R1,R2'])])
         if rng.random() < 0.15:
